@@ -42,7 +42,9 @@ ALG_KINDS = {'Range': 'range', 'LT': 'lt', 'LE': 'le', 'EQ': 'eq', 'GE': 'ge', '
 
 def build_solver(ck, flags=('-O1', '-g')):
     srcs = [os.path.join(RD, f) for f in ['recmain.cc', 'recmodelapi.cc', 'recbackend.cc']] + [os.path.join(CD, 'c07modelmgr.cc')]
-    objs = ck.objects(srcs, flags=flags, extra_inc=[RD], tag='c07')
+    # the harness TUs without debug information (c07modelmgr.cc instantiates the whole converter: -g made a 155 MB object and
+    # a 2 min compile); the library objects keep the flags they share with the other checks' caches
+    objs = ck.objects(srcs, flags=tuple(f for f in flags if f != '-g'), extra_inc=[RD], tag='c07')
     return ck.link('c07solver', objs + ck.libmp_objects(flags=flags))
 
 
